@@ -141,4 +141,82 @@ def run(prog):
                                 errs[0] if errs else "unguarded here; all %d call sites pass an unassigned literal" % sites))
     if n == 0:
         out.append(inst("UG", "repr::unit_prop:assigns-unassigned", UNDECIDED, None, None, "no PartialModel::set(label(l), _) found in unit propagation"))
+    out += unit_found_is_propagated(prog, fns)
+    return out
+
+
+def _count_like(t):
+    """a count of the literals of a clause that pass a test (the clause's unassigned literals): `filter(..).count()`,
+    or the length of such a selection"""
+    for x in mir.subterms(t):
+        if mir.is_call(x) and x[1].name in ("count", "len") and x[2] and \
+                any(mir.is_call(y) and y[1].name in ("filter", "filter_map") for y in mir.subterms(x[2][0])):
+            return True
+    return False
+
+
+def unit_found_is_propagated(prog, fns):
+    """UF — a clause found to have exactly one unassigned literal is propagated before the scan moves on.
+
+    Propagation "runs to fixpoint" only if every unit the watcher scan meets is followed up.  In the scanning function
+    (the one that counts a clause's unassigned literals and compares the count with 1) every path from the "exactly one
+    left" outcome back to the head of the scan, or out of the function, passes a call that propagates: the function's
+    own recursion, or a push onto a work list.  A path that merely advances the cursor (a depth budget, a flag) leaves a
+    unit clause behind, and nothing revisits it: the clause watches the literal that was just falsified."""
+    out = []
+    for f in fns:
+        te = f.terms
+        cfg = f.cfg
+        edges = []     # (switch block, target block reached when count == 1)
+        for b, (c, vm) in te.switch_term.items():
+            c0 = strip(c)
+            t = f.blocks[b]["term"]
+            if c0[0] == "bin" and c0[1] in ("Eq",) and _count_like(c0):
+                l, r = strip(c0[2]), strip(c0[3])
+                k = r if r[0] == "const" else l if l[0] == "const" else None
+                if k is not None and k[2] == "1":
+                    # switchInt on a bool: target '0' = false, otherwise = true
+                    tgt = [s_ for v, s_ in t["targets"] if v != "0"] or [t["otherwise"]]
+                    if t["otherwise"] is not None and all(v == "0" for v, _ in t["targets"]):
+                        tgt = [t["otherwise"]]
+                    edges += [(b, x) for x in tgt]
+            elif _count_like(c0) and c0[0] != "bin" and not vm:
+                for v, s_ in t["targets"]:
+                    if v == "1":
+                        edges.append((b, s_))
+        if not edges:
+            continue
+        key = "%s:unit-found-is-propagated" % f.npath
+        prop_blocks = set()
+        for cs in te.calls:
+            rec = cs.callee.name == f.name and f in prog.resolve(cs.callee)
+            # a work list: a push onto a collection that is not one of the label-indexed watch tables
+            queue = cs.callee.name in ("push", "push_back", "push_front") and cs.args and \
+                ("Vec" in cs.callee.key() or "VecDeque" in cs.callee.key()) and \
+                not any(mir.is_call(y) and y[1].name in ("index", "index_mut") for y in mir.subterms(cs.args[0])) and \
+                "watch" not in show(cs.args[0])
+            helper = False
+            if not rec and not queue and cs.callee.local:
+                for g in prog.resolve(cs.callee):
+                    if any(c2.callee.name == f.name and f in prog.resolve(c2.callee) for c2 in g.terms.calls):
+                        helper = True
+            if rec or queue or helper:
+                prop_blocks.add(cs.bb)
+        errs = []
+        for b, tgt in edges:
+            if tgt in prop_blocks:
+                continue
+            heads = [h for h, body in cfg.loop_headers.items() if b in body]
+            dsts = heads + list(cfg.returns)
+            for d in dsts:
+                if d in prop_blocks:
+                    continue
+                if cfg.can_reach(tgt, d, avoid=prop_blocks):
+                    what = "the scan continues with the next watcher" if d in heads else "the function returns"
+                    errs.append("after a clause was found to have exactly one unassigned literal there is a path on which %s without "
+                                "that literal being propagated (no recursive %s, nothing queued): the unit clause is left behind, "
+                                "and it no longer watches a literal whose assignment would wake it" % (what, f.name))
+                    break
+        out.append(inst("UG", key, VIOLATION if errs else OK, f, None,
+                        errs[0] if errs else "every path from `exactly one unassigned literal` propagates it before the scan goes on"))
     return out
